@@ -29,6 +29,7 @@ import (
 type input struct {
 	Real bool      `json:"real_collectors"`
 	Ops  []udpx.Op `json:"ops"`
+	Big6 bool      `json:"dual_stack_proxy,omitempty"` // the proxy socket serves IPv6 clients too
 }
 
 func Oracle(tr *udpx.Trace) (string, []*engine.Finding) {
@@ -112,7 +113,7 @@ func Oracle(tr *udpx.Trace) (string, []*engine.Finding) {
 			want := "OK"
 			if !forwarded {
 				ak := assocKey[op.C]
-				authOK := ak != nil && ak.Cipher == k.Cipher && ak.Secret == k.Secret && op.Mod != "flip" && op.Mod != "trunc-salt" && op.Mod != "trunc-tag"
+				authOK := ak != nil && ak.Cipher == k.Cipher && ak.Secret == k.Secret && op.Mod != "flip" && op.Mod != "trunc-salt" && op.Mod != "trunc-tag" && op.Mod != "raw-wire"
 				switch {
 				case !authOK:
 					want = "ERR_CIPHER"
@@ -273,7 +274,7 @@ func scenario(in input) *engine.Scenario {
 		// (the second key's ID is the empty string: legal, and reported like any other)
 		ks := udpx.DefaultKeys()
 		ks[1] = world.MakeKey("", ks[1].Cipher, ks[1].Secret)
-		cfg := udpx.Config{Keys: ks, NatTimeout: 5 * time.Minute}
+		cfg := udpx.Config{Keys: ks, NatTimeout: 5 * time.Minute, DualStack: in.Big6}
 		if in.Real {
 			cfg.Real = newReal
 		}
@@ -351,7 +352,9 @@ func menu() []udpx.Op {
 	m = append(m, udpx.Op{K: "R", C: 0, T: 1, N: 65480}, udpx.Op{K: "R", C: 0, T: 1, N: 65507},
 		udpx.Op{K: "S", C: 0, Key: 0, N: 9, Mod: "raw:93.184.216.34:0"},
 		// a destination given as a name that does not resolve
-		udpx.Op{K: "S", C: 0, Key: 0, T: 1, N: 6, Mod: "nxdomain"})
+		udpx.Op{K: "S", C: 0, Key: 0, T: 1, N: 6, Mod: "nxdomain"},
+		// an empty datagram, and one of seven arbitrary bytes
+		udpx.Op{K: "S", C: 0, Key: 0, N: 0, Mod: "raw-wire"}, udpx.Op{K: "S", C: 0, Key: 0, N: 7, Mod: "raw-wire"})
 	return m
 }
 
@@ -403,6 +406,17 @@ func init() {
 			ctx.RunCase("udp-metrics", "Q", scenario(in), in, nil)
 		}
 		ctx.Res.Note("udp-metrics: all %d^%d sequences; every third one also through the real Prometheus collectors", len(m), depth)
+		// datagrams of a client with an IPv6 address close to the largest UDP payload (65527 bytes
+		// over IPv6), first and on a live association
+		for i, n := range []int{65400, 65450, 65460, 65465, 65470, 65472} {
+			if !ctx.Mine(int64(i)) {
+				continue
+			}
+			in := input{Real: i%2 == 0, Big6: true, Ops: []udpx.Op{{K: "S", C: 3, Key: 0, T: 1, N: 10}, {K: "S", C: 3, Key: 0, T: 1, N: n}, {K: "R", C: 3, T: 1, N: 20}}}
+			sc := scenario(in)
+			sc.Name = "udp-metrics-big6"
+			ctx.RunCase("udp-metrics-big6", "Q", sc, in, nil)
+		}
 		dm := deepMenu()
 		dd := 5
 		if ctx.Tier == "thorough" {
@@ -441,6 +455,9 @@ func init() {
 			return []*engine.Finding{{Sig: "BROKEN:bad-input", Msg: err.Error()}}
 		}
 		rp.Choices = nil
+		if rp.Unit == "udp-metrics-big6" {
+			return engine.ReplayCase("udp-metrics-big6", scenario(in), rp)
+		}
 		if rp.Unit == "udp-metrics-deep" {
 			return engine.ReplayCase("udp-metrics-deep", scenario(in), rp)
 		}
